@@ -274,9 +274,40 @@ func checkC26(p *Prog, r *Result, tier string) {
 				}
 				return true
 			})
-			if deferCancel && waits && fcall && assigned {
+			// after the expiry case fired, the goroutine returns (running the deferred cancel) without blocking on anything else
+			prompt := true
+			ast.Inspect(g.Body, func(n ast.Node) bool {
+				cc, ok := n.(*ast.CommClause)
+				if !ok || cc.Comm == nil {
+					return true
+				}
+				es, ok := cc.Comm.(*ast.ExprStmt)
+				if !ok {
+					return true
+				}
+				if u, ok := unparen(es.X).(*ast.UnaryExpr); !ok || u.Op != token.ARROW || g.objOf(u.X) != expiry {
+					return true
+				}
+				for _, st := range cc.Body {
+					ast.Inspect(st, func(x ast.Node) bool {
+						switch y := x.(type) {
+						case *ast.UnaryExpr:
+							if y.Op == token.ARROW {
+								prompt = false
+							}
+						case *ast.SelectStmt, *ast.ForStmt, *ast.RangeStmt:
+							prompt = false
+						}
+						return true
+					})
+				}
+				return true
+			})
+			if deferCancel && waits && fcall && assigned && prompt {
 				why = ""
-			} else {
+			} else if !prompt {
+				why = "after the expiry channel closed the watcher goroutine waits for something else before it returns: the work keeps running under a live context although the active key is lost"
+			} else if why != "" && prompt {
 				why = fmt.Sprintf("watcher goroutine cancels on exit: %v; it waits on the expiry channel: %v; the work runs under the cancellable context: %v; expiry bound to the registration: %v", deferCancel, waits, fcall, assigned)
 			}
 		}
